@@ -108,6 +108,46 @@ def emit_script(name, stmts):
     return "Definition %s : script :=\n  [ %s ].\n" % (name, body)
 
 
+def canon_write(sql):
+    """canonical form of a data-modifying SQL statement: kind, table, columns written, columns tested.  Anything that
+    is not one of the three plain forms the model has functions for is returned as UNPARSED:<text> (it then matches
+    nothing in Inst_Writes.v: fail-closed)."""
+    s = re.sub(r"\s+", " ", sql.replace("`", "")).strip().rstrip(";").strip()
+    ident = r"[A-Za-z_][A-Za-z_0-9]*"
+    m = re.match(r"(?i)^INSERT INTO (%s) ?\(([^()]*)\) ?VALUES ?\(([ ?,]*)\)$" % ident, s)
+    if m:
+        cols = [c.strip() for c in m.group(2).split(",")]
+        marks = [c.strip() for c in m.group(3).split(",")]
+        if all(re.match(ident + "$", c) for c in cols) and marks == ["?"] * len(cols):
+            return "INSERT %s(%s)" % (m.group(1), ",".join(cols))
+    conds = r"(%s ?= ?\?(?: AND %s ?= ?\?)*)" % (ident, ident)
+    def cols_of(txt, sep):
+        return ",".join(p.split("=")[0].strip() for p in re.split(sep, txt))
+    m = re.match(r"(?i)^UPDATE (%s) SET (%s ?= ?\?(?: ?, ?%s ?= ?\?)*) WHERE %s$" % (ident, ident, ident, conds), s)
+    if m:
+        return "UPDATE %s SET %s WHERE %s" % (m.group(1), cols_of(m.group(2), ","), cols_of(m.group(3), r"(?i) AND "))
+    m = re.match(r"(?i)^DELETE FROM (%s)(?: WHERE %s)?$" % (ident, conds), s)
+    if m:
+        return "DELETE %s" % m.group(1) + ((" WHERE " + cols_of(m.group(2), r"(?i) AND ")) if m.group(2) else "")
+    return "UNPARSED:" + s
+
+
+def server_writes():
+    """every data-modifying SQL statement that occurs as a string constant in the server modules (wherever: a helper,
+    a module-level constant, a handler), as a sorted set of canonical forms"""
+    out = set()
+    for mod in ("server.py", "server_websocket.py", "server_tap.py"):
+        tree = ast.parse(open(os.path.join(PKG, mod)).read())
+        for node in ast.walk(tree):
+            if isinstance(node, ast.Constant) and isinstance(node.value, str):
+                s = node.value.replace("`", "").strip()
+                if re.match(r"(?i)^(INSERT\s+(OR\s+\w+\s+)?INTO\b|REPLACE\s+INTO\b|UPDATE\s+(OR\s+\w+\s+)?\S+\s+SET\b|DELETE\s+FROM\b|"
+                            r"DROP\s+(TABLE|INDEX|TRIGGER|VIEW)\b|ALTER\s+TABLE\b|CREATE\s+(TABLE|INDEX|UNIQUE|TRIGGER|TEMP|VIEW)\b|"
+                            r"PRAGMA\s+\w+|VACUUM\s*;?$|(BEGIN|COMMIT|ROLLBACK|END)(\s+(TRANSACTION|IMMEDIATE|EXCLUSIVE|DEFERRED))*\s*;?$|SAVEPOINT\s+\w+\s*;?$)", s):
+                    out.add(canon_write(node.value))
+    return sorted(out)
+
+
 def write_if_changed(path, txt):
     if not os.path.exists(path) or open(path).read() != txt:
         open(path, "w").write(txt)
@@ -151,13 +191,17 @@ def generate():
         parts.append("Definition gen_usage_old_schemas : list (Z * script) := [%s].\n" % "; ".join(olds))
         parts.append("Definition gen_usage_upgraders : list (Z * script) := [%s].\n" % "; ".join(ups))
         schemas = "\n".join(parts)
+        sqltxt = ("(* generated by harness/gen_instances.py from the SQL string constants of server.py, server_websocket.py\n"
+                  "   and server_tap.py -- do not edit *)\nFrom Coq Require Import String List.\nImport ListNotations.\nLocal Open Scope string_scope.\n"
+                  "Definition gen_server_writes : list string :=\n  [ %s ].\n" % ";\n    ".join(coq_str(w) for w in server_writes()))
     except (GenError, OSError, SyntaxError) as e:
         info["ok"] = False
         info["error"] = str(e)
         # an instance file that cannot be regenerated must not leave a stale one behind
         params = "(* generation failed: %s *)\nFrom Coq Require Import ZArith.\nDefinition generation_failed : Z := 0%%Z.\n" % str(e).replace("*)", "* )")
         schemas = params
-    for name, txt in (("GenParams.v", params), ("GenSchemas.v", schemas)):
+        sqltxt = params
+    for name, txt in (("GenParams.v", params), ("GenSchemas.v", schemas), ("GenSql.v", sqltxt)):
         write_if_changed(os.path.join(GEN, name), txt)
         info["files"][name] = hashlib.sha256(txt.encode()).hexdigest()
     return info
